@@ -37,7 +37,7 @@ CHECKS = {
               "bit-for-bit with the compiled kernels and with complete NNDescent constructions (dense and CSR) on integer-valued data; for all "
               "other metrics/data kinds the read-out specification is evaluated on neighbor_graph against independent float64 references."),
         design_ref="6.1",
-        note=LEVEL_NOTE_COMMON + " Not proved: float32 rounding of metric kernels (tolerance check), the in-range property of candidate arrays (hypothesis of the round theorem, validated by correspondence), the loop composition of nn_descent as a single theorem.",
+        note=LEVEL_NOTE_COMMON + " Also proved: candidate arrays of new_build_candidates are in range, flag clearing keeps the invariant, and nn_descent as a whole (any iteration count, threshold, thread count, both memory modes, with/without leaves or from a well-formed init heap) returns the row-wise sort of a graph satisfying the invariant (C01_nn_descent_invariant). Not proved: float32 rounding of metric kernels (tolerance check); NNDescent.update() re-entering the loop from the invalidated graph is covered through init = Some g only if that graph is well formed (checked per history by C04).",
     ),
     "C13": dict(
         technique="Coq proof (every graph-writing kernel is a fold of heap pushes; a push never lowers any rank: count form, shown equivalent to the rank form) + exact kernel correspondence + rank-profile oracle on the API",
